@@ -11,6 +11,7 @@ import (
 
 	connect "github.com/bufbuild/connect-go"
 
+	"github.com/bufbuild/connect-go/verif/comp"
 	"github.com/bufbuild/connect-go/verif/memnet"
 	"github.com/bufbuild/connect-go/verif/pbt"
 	"github.com/bufbuild/connect-go/verif/prog"
@@ -86,7 +87,9 @@ func cfgGen(t *rapid.T) prog.Config {
 		Codec:    rapid.SampledFrom(prog.Codecs).Draw(t, "codec"),
 		Kind:     rapid.SampledFrom(prog.Kinds).Draw(t, "kind"),
 	}
-	extra := []string{"deflate", "zlib", "toy", "gzip"}
+	// ("gzipmm": registered as "gzip", but its writer emits two gzip members
+	// per message; the other side may well use the library's built-in reader)
+	extra := []string{"deflate", "zlib", "toy", "gzip", "gzipmm"}
 	cfg.CAccept = subsetInOrder(t, extra, "cAccept")
 	cfg.HComp = subsetInOrder(t, extra, "hComp")
 	// the send algorithm must be one the handler supports (otherwise the
@@ -95,7 +98,7 @@ func cfgGen(t *rapid.T) prog.Config {
 	for _, a := range cfg.CAccept {
 		for _, b := range cfg.HComp {
 			if a == b {
-				sendChoices = append(sendChoices, a)
+				sendChoices = append(sendChoices, comp.WireName(a))
 			}
 		}
 	}
